@@ -175,7 +175,7 @@ def _c19_concrete(kind, losses, patience, min_delta, rep):
     cls = m.TrainLoss if kind == "train" else m.ValLoss
     sc = cls(patience=patience, min_delta=min_delta)
     first = -1
-    sc.stop(("model", -1), 0, None, None, 0.0)
+    pre = bool(sc.stop(("model", -1), 0, None, None, 0.0))  # the call `train` makes before the first epoch: must not stop
     for i, l in enumerate(losses):
         lv = conv(l)
         r = sc.stop(("model", i), i + 1, lv if kind == "train" else conv(123.0), lv if kind == "val" else conv(123.0), 0.0)
@@ -187,8 +187,9 @@ def _c19_concrete(kind, losses, patience, min_delta, rep):
     efirst, _ = c19_stop.ref_run(seen, patience, min_delta)
     ebest = c19_stop.ref_run(seen if first < 0 else seen[: first + 1], patience, min_delta)[1]
     bidx = sc.best_model[1] if isinstance(sc.best_model, tuple) else -2
-    ok = (first == efirst) and (bidx == ebest)
-    return ok, f"{cls.__name__} fed {rep} losses {losses} patience={patience} min_delta={min_delta}: first stop {first} (spec {efirst}), best model {bidx} (spec {ebest})"
+    ok = (not pre) and (first == efirst) and (bidx == ebest)
+    return ok, (f"{cls.__name__} fed {rep} losses {losses} patience={patience} min_delta={min_delta}: stop before any loss is known returned {pre} "
+                f"(spec False), first stop {first} (spec {efirst}), best model {bidx} (spec {ebest})")
 
 
 def run_c19(cx, tier="quick"):
